@@ -194,19 +194,20 @@ def rejDeleteByIdx (K : Keys) (s : State) (b : Nat) : State :=
   | some r => rejDelete K s r
   | none => s
 
-/-- OneTxRejected.Add (CheckForErrors() is false: no duplicate test) -/
-def rejAdd (K : Keys) (s : State) (r : Rej) : State :=
+/-- TRIdxHead reached TRIdxTail: drop the oldest record -/
+def rejEvictOldest (K : Keys) (s : State) : State :=
+  if s.ring.length ≥ s.cfg.ringCap then
+    match s.ring with
+    | some old :: _ =>
+      match s.rej.get? old with
+      | some o => rejDelete K s o
+      | none => { s with panicked := true }
+    | _ => { s with ring := normRing s.ring }
+  else s
+
+/-- the RejectedSpentOutputs / WaitingForInputs part of Add -/
+def rejAddRefs (K : Keys) (s : State) (r : Rej) : State :=
   let b := K.bidx r.id
-  let s := { s with ring := s.ring ++ [some b], rej := s.rej.set b r }
-  -- TRIdxHead reached TRIdxTail: drop the oldest record
-  let s := if s.ring.length ≥ s.cfg.ringCap then
-      match s.ring with
-      | some old :: _ =>
-        match s.rej.get? old with
-        | some o => rejDelete K s o
-        | none => { s with panicked := true }
-      | _ => { s with ring := normRing s.ring }
-    else s
   match r.tx with
   | none => s
   | some t =>
@@ -221,6 +222,11 @@ def rejAdd (K : Keys) (s : State) (r : Rej) : State :=
         | none => s.waiting.set k (w4, [b])
         | some (id, ids) => s.waiting.set k (id, ids ++ [b])
     { s with rejSpent := rs, waiting := w }
+
+/-- OneTxRejected.Add (CheckForErrors() is false: no duplicate test) -/
+def rejAdd (K : Keys) (s : State) (r : Rej) : State :=
+  let b := K.bidx r.id
+  rejAddRefs K (rejEvictOldest K { s with ring := s.ring ++ [some b], rej := s.rej.set b r }) r
 
 /-- rejectTx -/
 def rejectTx (K : Keys) (s : State) (t : Tx) (why : Nat) (missing : Option TxId) : State :=
@@ -428,7 +434,7 @@ def deleteRbf (K : Keys) (s : State) (rbf : List Nat) : State :=
 /-- processTx: result code (0 = accepted) and the new state -/
 def processTx (K : Keys) (minFee : Nat) (s : State) (t : Tx) (fl : Flags) : Nat × State :=
   if !fl.unmined && t.weight > s.cfg.maxTxWeight then (R_TOO_BIG, rejectTx K s t R_TOO_BIG none)
-  else if hasDupInput t.ins then (R_BAD_INPUT, rejectTx K s t R_BAD_INPUT none)
+  else if !fl.unmined && hasDupInput t.ins then (R_BAD_INPUT, rejectTx K s t R_BAD_INPUT none)
   else
   match t.ins.foldlM (inputStep K s fl) ({} : Acc) with
   | .error e => (e.code, if e.reject then rejectTx K s t e.code e.missing else
@@ -476,6 +482,15 @@ def txAcceptedAux (K : Keys) (minFee : Nat) : Nat → State → List Nat → Nat
             | some t =>
               let (res, s) := processTx K minFee s t {}
               let recs := if res = 0 then recs ++ [K.bidx t.id] else recs
+              -- put back on the list being drained: the parent has no such output (2nd `fix:` commit)
+              let s := if res = R_NO_TXOU then
+                  match s.waiting.get? cur with
+                  | some (_, ids') =>
+                    if ids'.contains (K.bidx t.id) then
+                      rejectTx K (rejDeleteByIdx K s (K.bidx t.id)) t R_BAD_INPUT none
+                    else s
+                  | none => s
+                else s
               txAcceptedAux K minFee fuel s recs delidx
 
 def txAccepted (K : Keys) (minFee : Nat) (s : State) (b : Nat) : State :=
@@ -653,28 +668,32 @@ def feeOrder (s : State) : List (Nat × T2S) :=
   s.pool.foldl (fun acc p => insSorted p acc) []
 
 /-- missing_parents(tx, true): some flagged parent is not yet in the result -/
-def missingParents (K : Keys) (res : List Nat) (t : T2S) : Bool :=
-  (memParents K t).any fun p => !res.contains p
+def missingParents (K : Keys) (res : List (Nat × T2S)) (t : T2S) : Bool :=
+  (memParents K t).any fun p => !(res.map (·.1)).contains p
 
 /-- append_txs: append, then retry the deferred children whose parents are now all in -/
-def appendTxs (K : Keys) : Nat → List Nat × List (Nat × T2S) → Nat × T2S → List Nat × List (Nat × T2S)
+def appendTxs (K : Keys) : Nat → List (Nat × T2S) × List (Nat × T2S) → Nat × T2S →
+    List (Nat × T2S) × List (Nat × T2S)
   | 0, st, _ => st
-  | fuel + 1, (res, deferred), (b, _) =>
-    let res := res ++ [b]
-    deferred.foldl (fun (st : List Nat × List (Nat × T2S)) d =>
-      let (res, deferred) := st
-      if res.contains d.1 then st
-      else if (memParents K d.2).contains b && !missingParents K res d.2 then
-        appendTxs K fuel (res, deferred) d
+  | fuel + 1, (res, deferred), x =>
+    let res := res ++ [x]
+    deferred.foldl (fun (st : List (Nat × T2S) × List (Nat × T2S)) d =>
+      if (st.1.map (·.1)).contains d.1 then st
+      else if (memParents K d.2).contains x.1 && !missingParents K st.1 d.2 then
+        appendTxs K fuel st d
       else st) (res, deferred)
 
-def sortedSlow (K : Keys) (s : State) : List Nat :=
-  let all := feeOrder s
-  let (res, _) := all.foldl (fun (st : List Nat × List (Nat × T2S)) p =>
-    let (res, deferred) := st
-    if missingParents K res p.2 then (res, deferred ++ [p])
-    else appendTxs K (s.pool.length + 1) (res, deferred) p) ([], [])
-  res
+/-- one step of the main loop of GetSortedMempoolSlow -/
+def slowStep (K : Keys) (fuel : Nat) (st : List (Nat × T2S) × List (Nat × T2S)) (p : Nat × T2S) :
+    List (Nat × T2S) × List (Nat × T2S) :=
+  if missingParents K st.1 p.2 then (st.1, st.2 ++ [p])
+  else appendTxs K fuel st p
+
+/-- GetSortedMempoolSlow with the records -/
+def sortedSlowP (K : Keys) (s : State) : List (Nat × T2S) :=
+  ((feeOrder s).foldl (slowStep K (s.pool.length + 1)) ([], [])).1
+
+def sortedSlow (K : Keys) (s : State) : List Nat := (sortedSlowP K s).map (·.1)
 
 /-- buildSortedList -/
 def buildSorted (K : Keys) (s : State) : State :=
